@@ -403,10 +403,10 @@ Theorem transcription_validate_tie : forall (ri ei : arr) (rp ep : list Q), wf_a
 Proof.
   intros ri ei rp ep Wr We. ev_tree gen_transcription_validate vext. norm.
   unfold transcription_validate_arr, validate_boundary_arr, shape0. rewrite !lift_bind.
-  destruct (validate_intervals_arr ri) as [[]|x] eqn:V1; cbn [lift_u obind]; [|reflexivity].
-  destruct (validate_intervals_arr ei) as [[]|x] eqn:V2; cbn [lift_u obind]; [|reflexivity].
-  rewrite (vi_ok_shape ri Wr V1), (vi_ok_shape ei We V2).
-  destruct rp as [|p1 rp], ep as [|p2 ep]; cbn [length Nat.ltb Nat.leb is_nil qmin0 qmin_list]; rewrite ?min_le_exists; cbn [existsb];
+  destruct (validate_intervals_arr ri) as [[]|x] eqn:V1; [rewrite ?(vi_ok_shape ri Wr V1)|ve V1];
+    (destruct (validate_intervals_arr ei) as [[]|x] eqn:V2; [rewrite ?(vi_ok_shape ei We V2)|ve V2]);
+    cbn [lift_u obind];
+    destruct rp as [|p1 rp], ep as [|p2 ep]; cbn [length Nat.ltb Nat.leb is_nil qmin0 qmin_list]; rewrite ?min_le_exists; cbn [existsb];
     split_ifs; reflexivity.
 Qed.
 Theorem transcription_velocity_validate_tie : forall (ri ei : arr) (rp rv ep ev : list Q),
